@@ -1,0 +1,25 @@
+//go:build verif
+
+package backends
+
+// Contracts for the deductive checker in /verif (comments only; compiled to nothing).
+
+// ---- C02: a stream backend sends each datagram as exactly one frame, written completely, and hands the protocol
+// ---- only messages the de-framer reports complete, however the byte stream was chunked by the network
+
+//@ func (*TCPSession).Send
+//@   tags C02
+//@   requires ns != nil && ns.framer != nil && ns.conn != nil
+//@   site call SendData ONEFRAME: [C02] requires arg0 == data
+//@   site call Write WHOLEFRAME: [C02] requires arg0 == lastcall("SendData", 0)
+//@   ensures COMPLETE: [C02] result == nil ==> lastcall("Write", 1) == nil && lastcall("Write", 0) == len(lastcall("SendData", 0))
+
+//@ func (*TCPSession).Recv
+//@   tags C02 C07
+//@   requires ns != nil && ns.framer != nil && ns.conn != nil
+//@   site call Read INTOBUF: [C02] requires arg0 == buf
+//@   site call RecvData WHATWASREAD: [C02] requires ref(arg0) == ref(buf) && off(arg0) == off(buf) && len(arg0) == lastcall("Read", 0) && lastcall("Read", 1) == nil
+//@   site call GetMessage WHENREADY: [C02] requires lastcall("MessageReady", 0)
+//@   ensures THEMESSAGE: [C02] result.0 != nil ==> result.0 == lastcall("GetMessage", 0) && lastcall("GetMessage", 1) == nil && result.1 == nil
+//@   loop for
+//@     invariant BUF: len(buf) == 65536 && buf != nil
